@@ -65,7 +65,7 @@ type adapter interface {
 type ruleAd struct{ m *schema.RuleASTNodes }
 
 func rv(v string) schema.RuleASTNode { return schema.RuleASTNode{Value: v} }
-func (a ruleAd) Set(k, v string)       { a.m.Set(k, rv(v)) }
+func (a ruleAd) Set(k, v string)     { a.m.Set(k, rv(v)) }
 func (a ruleAd) Update(k, s string) {
 	a.m.Update(k, func(v schema.RuleASTNode) schema.RuleASTNode { v.Value += s; return v })
 }
@@ -101,7 +101,7 @@ func (a ruleAd) Marshal() ([]byte, error)    { return a.m.MarshalJSON() }
 type astAd struct{ m *schema.ASTNodes }
 
 func av(v string) schema.ASTNode { return schema.ASTNode{Value: v} }
-func (a astAd) Set(k, v string)   { a.m.Set(k, av(v)) }
+func (a astAd) Set(k, v string)  { a.m.Set(k, av(v)) }
 func (a astAd) Update(k, s string) {
 	a.m.Update(k, func(v schema.ASTNode) schema.ASTNode { v.Value += s; return v })
 }
